@@ -4,12 +4,13 @@ import Qfx.Drv.Val
 import Qfx.Drv.ValMon
 import Qfx.Drv.Sched
 import Qfx.Drv.Codec
+import Qfx.Drv.CodecMon
 namespace Qfx.Drv
 
 def families : List (String × Family) :=
   [ ("val", valFamily), ("val-mon", valMonFamily)
   , ("sched", schedFamily)
-  , ("codec", codecFamily)
+  , ("codec", codecFamily), ("codec-mon", codecMonFamily)
   ]
 
 end Qfx.Drv
